@@ -374,6 +374,25 @@ example : InClass false exG ∧ InClass false { exG with host := ampDash ++ exG.
     normalizeUrlString id id {} false "https://amp-www.a.com/p?a=1".toList = "a.com/p?a=1".toList := by
   decide +kernel
 
+/-! ## the case of the hex digits, on strings -/
+
+/-- **the letter case of the hex digits of the escapes is irrelevant on strings** (`upper_quoted` on
+the whole URL before it is parsed): two strings whose cleaned forms read the same token by token,
+up to the case of the two hex digits of each escape, are normalized alike — every string the
+modelled parser accepts, no grammar (`infer_redirection=False`; with it: `norm_*_string_rel`, whose
+class is taken after `upper_quoted`) -/
+theorem norm_hex_case_string (puny : Str → Str) (o : Normalize.Opts) (u v : Str)
+    (h : (tokens (strip (stripControl u))).map upperTok = (tokens (strip (stripControl v))).map upperTok)
+    (hparse : parseUrl (prepared id false v).1 ≠ none) :
+    normalizeUrlString puny id o false u = normalizeUrlString puny id o false v := by
+  rw [normalizeUrlString_eq, normalizeUrlString_eq]
+  exact norm_hex_case puny parseUrl id o u v h hparse
+
+example : (tokens (strip (stripControl "http://a.com/%c3%a9?x=%2f".toList))).map upperTok =
+    (tokens (strip (stripControl "http://a.com/%C3%A9?x=%2F".toList))).map upperTok ∧
+    parseUrl (prepared id false "http://a.com/%C3%A9?x=%2F".toList).1 ≠ none := by
+  decide +kernel
+
 /-! ## compositions -/
 
 /-- **two transformations in a row**: the intermediate spelling needs no string of its own, only
